@@ -21,6 +21,7 @@ import Frrs.CliValues
 import Frrs.Validate
 import Frrs.Migrate
 import Frrs.Backup
+import Frrs.Cli
 namespace Frrs.Ops
 open Frrs Frrs.Wire
 
@@ -49,6 +50,38 @@ def optPair (opts : String) (k : String) : Option (Option (Bytes × Bytes)) :=
 
 def pruneMode (t : String) : Option PruneMode :=
   if t == "never" then some .never else if t == "auto" then some .auto else if t == "always" then some .always else none
+
+/-- canonical rendering of what `parse_args` produced (the harness renders the real `Options` the same way) -/
+def renderCli (o : Cli.CliOpts) : String :=
+  let ob (x : Option Bytes) := encOptBytes x
+  let obool (x : Option Bool) := match x with | none => "none" | some b => encBool b
+  let opair (x : Option (Bytes × Bytes)) := match x with | none => "none" | some (a, b) => encBytes a ++ ":" ++ encBytes b
+  let onat (x : Option Nat) := match x with | none => "none" | some n => toString n
+  let oint (x : Option Int) := match x with | none => "none" | some n => toString n
+  let pm (m : PruneMode) := match m with | .always => "always" | .auto => "auto" | .never => "never"
+  ";".intercalate [
+    "analyze=" ++ encBool o.analyze, "json=" ++ encBool o.json, "top=" ++ toString (o.top.getD 10), "debug=" ++ encBool o.debug,
+    "source=" ++ encBytes o.source, "target=" ++ encBytes o.target, "refs=" ++ encList o.refs,
+    "dateorder=" ++ encBool o.dateOrder, "nodata=" ++ encBool o.noData, "quiet=" ++ encBool o.quiet, "reset=" ++ encBool o.reset,
+    "rmsg=" ++ ob o.replaceMessage, "rtext=" ++ ob o.replaceText, "mailmap=" ++ ob o.mailmap, "author=" ++ ob o.authorRewrite,
+    "committer=" ++ ob o.committerRewrite, "email=" ++ ob o.emailRewrite,
+    "paths=" ++ encList o.paths, "invert=" ++ encBool o.invert, "globs=" ++ encList o.globs, "regexes=" ++ encList o.regexes,
+    "renames=" ++ encPairs o.renames, "tagrename=" ++ opair o.tagRename, "branchrename=" ++ opair o.branchRename,
+    "maxblob=" ++ onat o.maxBlob, "strip=" ++ ob o.stripIds, "wr=" ++ encBool o.writeReport, "wrj=" ++ encBool o.writeReportJson,
+    "compat=" ++ (match o.compat with | .sanitize => "sanitize" | .skip => "skip" | .error => "error"),
+    "cleanup=" ++ (match o.cleanup with | .none => "none" | .standard => "standard" | .aggressive => "aggressive"),
+    "reencode=" ++ encBool o.reencode, "reencreq=" ++ obool o.reencodeRequested, "quotepath=" ++ encBool o.quotepath,
+    "marktags=" ++ encBool o.markTags, "marktagsreq=" ++ obool o.markTagsRequested, "fe=" ++ ob o.feOverride,
+    "force=" ++ encBool o.force, "sanity=" ++ encBool o.enforceSanity, "dry=" ++ encBool o.dryRun, "detect=" ++ encBool o.detectSecrets,
+    "patterns=" ++ encList o.detectPatterns, "partial=" ++ encBool o.partialRun, "sensitive=" ++ encBool o.sensitive,
+    "nofetch=" ++ encBool o.noFetch, "backup=" ++ encBool o.backup, "backuppath=" ++ ob o.backupPath,
+    "pe=" ++ pm o.pruneEmpty, "pd=" ++ pm o.pruneDegenerate, "noff=" ++ encBool o.noFf,
+    "shift=" ++ oint o.dateShift, "set=" ++ oint o.dateSet ]
+
+def renderOutcome : Cli.Outcome → String
+  | .ok o => "ok " ++ renderCli o
+  | .exit c => "exit" ++ toString c
+  | .err => "err"
 
 def fakeId (m : Nat) : Bytes :=
   let hex := (Nat.toDigits 16 m).map fun c => c.toNat.toUInt8
@@ -334,6 +367,9 @@ def dispatch (op : String) (args : List String) : Option String :=
   | "backupdest", [path, isdir] => do
       let p ← (if path == "none" then some none else (decBytes path).map some)
       pure (match backupDest p (← decBool isdir) with | .defaultDir => "default" | .inDir _ => "dir" | .file _ => "file")
+  -- opts.rs parse_args: the whole command line (bad = the --path-regex values the regex crate refuses)
+  | "cliargs", [bad, argv] => do
+      pure (renderOutcome (Cli.parseArgs (← decList bad) (← decList argv)))
   -- opts.rs value parsers
   | "clival", [kind, v] => do
       let b ← decBytes v
